@@ -87,7 +87,7 @@ class PEval:
         self.steps = 0
         self.max_steps = max_steps
         self._modcache: Dict[Tuple[str, str], Any] = {}
-        self.dupes: List[Any] = []      # duplicate keys met in dict literals / repeated stores of one key
+        self.dupes: List[Any] = []      # keys that occur twice within one dict literal / comprehension / pair list
 
     def _tick(self):
         self.steps += 1
@@ -321,8 +321,7 @@ class PEval:
             if isinstance(base, dict):
                 if k is UNKNOWN:
                     raise CannotEval('store under a non-constant key')
-                if _hashable(k) in base:
-                    self.dupes.append(k)
+                # (a later store to a key that exists is the ordinary way to override a default entry: not a duplicate)
                 base[_hashable(k)] = v
                 return
             if isinstance(base, list) and isinstance(k, int):
@@ -599,6 +598,10 @@ class PEval:
             return ExtRef(base.path + '.' + a)
         if isinstance(base, StructVal) and a == 'size':
             return base.size
+        if isinstance(base, NTuple) and a in base.fields:
+            return base.get(a)
+        if isinstance(base, _NTClass) and a == '_fields':
+            return tuple(base.fields)
         if isinstance(base, (dict, list, tuple, set, str, bytes)):
             return _Method(base, a)
         if isinstance(base, (_Row, Record)):
@@ -650,8 +653,20 @@ class PEval:
             return self.call_function(fi, args, kwargs, None)
         if isinstance(fn, FuncVal):
             return self.call_funcval(fn, args, kwargs)
+        if isinstance(fn, _NTClass):
+            return fn.make(args, kwargs)
         if isinstance(fn, ClassRef):
             c = self.repo.cls(fn.module, fn.name)
+            if self.repo.is_value_class(c):
+                # typing.NamedTuple / behaviour-free dataclass: fields in declaration order, class-level defaults
+                fields, defaults = [], {}
+                for st in c.node.body:
+                    if isinstance(st, ast.AnnAssign) and isinstance(st.target, ast.Name):
+                        fields.append(st.target.id)
+                        if st.value is not None:
+                            defaults[st.target.id] = self.expr(st.value, Scope(c.module, c, {}))
+                if fields:
+                    return _NTClass(c.name, fields, defaults).make(args, kwargs)
             # namedtuple-like rows and plain data holders are not modelled; an instance is only a bag of its arguments
             return _Row(c, args, kwargs, self)
         if isinstance(fn, ExtRef):
@@ -659,7 +674,14 @@ class PEval:
                 return StructVal(args[0])
             if fn.path.endswith('uid.UID') and len(args) == 1:
                 return args[0]
-            if fn.path in ('collections.namedtuple',):
+            if fn.path in ('collections.namedtuple', 'namedtuple') and len(args) >= 2 and isinstance(args[0], str):
+                f = args[1]
+                if isinstance(f, str):
+                    f = f.replace(',', ' ').split()
+                if isinstance(f, (list, tuple)) and all(isinstance(x, str) for x in f):
+                    d = kwargs.get('defaults')
+                    dmap = dict(zip(list(f)[len(f) - len(d):], d)) if isinstance(d, (list, tuple)) else {}
+                    return _NTClass(args[0], list(f), dmap)
                 return UNKNOWN
             if fn.path in ('functools.partial',) and args:
                 return UNKNOWN
@@ -841,9 +863,11 @@ class PEval:
                             raise CannotEval('update with a non-constant mapping')
                         else:
                             src = [tuple(x) for x in self._iterate(a)]
+                        seen_here = set()
                         for k, v in src:
-                            if _hashable(k) in obj:
-                                self.dupes.append(k)
+                            if _hashable(k) in seen_here:
+                                self.dupes.append(k)      # twice within the one mapping handed to update()
+                            seen_here.add(_hashable(k))
                             obj[_hashable(k)] = v
                     obj.update(kwargs)
                     return None
@@ -939,6 +963,39 @@ class Record:
 
     def get(self, a):
         return self.vals.get(a, UNKNOWN)
+
+
+class NTuple(tuple):
+    """an instance of a ``collections.namedtuple`` / ``typing.NamedTuple`` type built from constants: a tuple whose items can
+    also be read by field name"""
+
+    def __new__(cls, fields, values):
+        obj = tuple.__new__(cls, values)
+        obj.fields = tuple(fields)
+        return obj
+
+    def get(self, a):
+        return self[self.fields.index(a)] if a in self.fields else UNKNOWN
+
+
+class _NTClass:
+    def __init__(self, name, fields, defaults=None):
+        self.name, self.fields, self.defaults = name, list(fields), dict(defaults or {})
+
+    def make(self, args, kwargs):
+        if len(args) > len(self.fields) or any(k not in self.fields for k in kwargs):
+            raise Raised('TypeError', 'bad arguments for %s' % self.name)
+        vals = dict(zip(self.fields, args))
+        for k, v in kwargs.items():
+            if k in vals:
+                raise Raised('TypeError', 'duplicate argument %s' % k)
+            vals[k] = v
+        for f in self.fields:
+            if f not in vals:
+                if f not in self.defaults:
+                    raise Raised('TypeError', 'missing argument %s' % f)
+                vals[f] = self.defaults[f]
+        return NTuple(self.fields, [vals[f] for f in self.fields])
 
 
 class _Row:
